@@ -94,7 +94,7 @@ def pair_plan(p, tier, rng):
             cand = [(a, b) for a in ids for b in ids if a != b]
             rng.shuffle(cand)
             out += [(name, a, b) for a, b in cand[: (3 if fam == "multi" else 2) if tier == "quick" else 12]]
-        elif fam in ("algo", "api", "nat"):
+        elif fam in ("algo", "api", "nat", "natb"):
             cand = [(a, b) for a in ids for b in ids if a != b]
             rng.shuffle(cand)
             if name.startswith("algo:DE:"):
@@ -102,7 +102,7 @@ def pair_plan(p, tier, rng):
                 # per ordered combination of (verdict, remainder class 0 / 1 / other, equal last two digits)
                 cand = _class_cover(p, name[8:], cand) + cand
                 cand = list(dict.fromkeys(cand))
-            out += [(name, a, b) for a, b in cand[: sz["pairs_per_group"] if fam == "algo" else max(2, sz["pairs_per_group"] // 4)]]
+            out += [(name, a, b) for a, b in cand[: sz["pairs_per_group"] if fam == "algo" else sz["pairs_per_group"] // 2 if fam == "natb" else max(2, sz["pairs_per_group"] // 4)]]
         elif fam in ("listed", "code", "seed", "gen", "text", "bbanvalue"):
             cand = [(a, b) for a in ids for b in ids if a != b]
             rng.shuffle(cand)
@@ -243,7 +243,7 @@ def run_explore(shard, mon, S, p):
     rng = env.rng("C14", shard["_name"])
     traces = set()
     budget = sz["budget"] if gran == "line" else max(2000, sz["budget"] // 3)
-    order = sorted(shard["pairs"], key=lambda x: 0 if x[0].startswith(("multi", "algo-unknown")) else 1 if x[0].startswith("algo") else 2 if x[0].startswith("shared") else 3 if x[0].startswith(("api", "nat")) else 4)
+    order = sorted(shard["pairs"], key=lambda x: 0 if x[0].startswith(("multi", "algo-unknown")) else 1 if x[0].startswith(("algo", "natb")) else 2 if x[0].startswith("shared") else 3 if x[0].startswith(("api", "nat")) else 4)
     try:
         for name, a, b in order:
             if mon.evaluations >= budget:
